@@ -112,6 +112,9 @@ def run_tlc(
     m2 = re.search(r"Error: Action property (\S+) is violated", out)
     if m2:
         r.violated = m2.group(1)
+    m3 = re.search(r"Error: Temporal property (\S+) was violated", out)      # TLC 1.8 names the property
+    if m3:
+        r.violated = r.violated or m3.group(1)
     if "Temporal properties were violated" in out:
         r.violated = r.violated or "TEMPORAL"
     if r.violated:
